@@ -49,6 +49,28 @@ fn ck(r: &Result<u16, ValueTooBigError<usize>>) -> String {
     }
 }
 
+/// TcpSlice (the modelled route) against the TcpHeaderSlice copies of the same computation: the same
+/// checksum when accepted; when rejected, the header-slice copies report the payload length against
+/// `limit - header_len` (TcpSlice reports the whole slice against the limit)
+fn tcp_routes(
+    slice: &Result<u16, ValueTooBigError<usize>>,
+    hslice: &[Result<u16, ValueTooBigError<usize>>],
+    payload_len: usize,
+    true_max: usize,
+) -> String {
+    for h in hslice {
+        let same = match (slice, h) {
+            (Ok(a), Ok(b)) => a == b,
+            (Err(_), Err(e)) => e.actual == payload_len && e.max_allowed == true_max,
+            _ => false,
+        };
+        if !same {
+            return format!("routes-differ(slice={},hslice={})", ck(slice), ck(h));
+        }
+    }
+    ck(slice)
+}
+
 fn arr<const N: usize>(s: &str) -> Option<[u8; N]> {
     hex(s)?.try_into().ok()
 }
@@ -403,14 +425,40 @@ pub fn run(op: &str, a: &[&str]) -> Option<String> {
             let mut b = hex(hdr)?;
             b.extend_from_slice(&pat(l, x, y)?);
             let s = TcpSlice::from_slice(&b).ok()?;
-            ck(&s.calc_checksum_ipv4(arr::<4>(src)?, arr::<4>(dst)?))
+            // the header-slice type has its own copies of the limit check: all routes must agree
+            let hb = hex(hdr)?;
+            let hs = TcpHeaderSlice::from_slice(&hb).ok()?;
+            let p = &b[hb.len()..];
+            let (src, dst) = (arr::<4>(src)?, arr::<4>(dst)?);
+            let ipb = Ipv4Header {
+                source: src,
+                destination: dst,
+                ..Default::default()
+            }
+            .to_bytes();
+            let ips = Ipv4HeaderSlice::from_slice(&ipb).ok()?;
+            tcp_routes(
+                &s.calc_checksum_ipv4(src, dst),
+                &[hs.calc_checksum_ipv4_raw(src, dst, p), hs.calc_checksum_ipv4(&ips, p)],
+                p.len(),
+                0xffff - hb.len(),
+            )
         }
         ("set.tcpslice.calc_checksum_ipv6", [hdr, src, dst, l, x, y]) => {
             let _ = tcp_of(hdr)?;
             let mut b = hex(hdr)?;
             b.extend_from_slice(&pat(l, x, y)?);
             let s = TcpSlice::from_slice(&b).ok()?;
-            ck(&s.calc_checksum_ipv6(arr::<16>(src)?, arr::<16>(dst)?))
+            let hb = hex(hdr)?;
+            let hs = TcpHeaderSlice::from_slice(&hb).ok()?;
+            let p = &b[hb.len()..];
+            let (src, dst) = (arr::<16>(src)?, arr::<16>(dst)?);
+            tcp_routes(
+                &s.calc_checksum_ipv6(src, dst),
+                &[hs.calc_checksum_ipv6_raw(src, dst, p)],
+                p.len(),
+                0xffff_ffff - hb.len(),
+            )
         }
         ("impl.set.tcpslice.calc_checksum_ipv6.big", [hdr, src, dst, l]) => {
             // slice = header followed by zeros, `l` bytes in total
